@@ -518,7 +518,7 @@ def notify_family(run, replay=None):
                                        'EVENTs are attributed to an action by fencing every open connection with its own request/response after the action (events are written synchronously by hc before the causing call returns)',
                                        'a closed connection cannot be observed receiving anything: observed white-box as "the context holds no session for it" and black-box as "a reconnect starts without subscriptions"',
                                        'ProgrammableSwitchEvent (event per press by contract) is outside the same-value alphabet'],
-                          rule_text='TLC-generated histories of connect / close / subscribe / unsubscribe / local set / remote write / read answered by an application getter / local set racing a close over 3 connections and 3 characteristics on 2 accessories (edge mode, words, attack words per named guard, simulation); distinct = canonical abstract word; non-trivial = the design spec expects at least one EVENT in it',
+                          rule_text='TLC-generated histories of connect / close / subscribe / unsubscribe / local set / remote write / read answered by an application getter / a change answered by a second change from inside the application's own callback (Nested) / local set racing a close over 3 connections and 3 characteristics on 2 accessories (edge mode, words, attack words per named guard, simulation); distinct = canonical abstract word; non-trivial = the design spec expects at least one EVENT in it',
                           nontrivial=lambda b: any(sum(s.get('exp', {}).values()) > 0 for s in b['steps']),
                           sanity=sanity, extra_cov=extra)
 
@@ -1079,7 +1079,7 @@ def charstack_family(run, replay=None):
                           assumptions=['every zero-argument characteristic constructor found in /repo/characteristic at build time is put into one attribute database (plus filler accessories: 5, 8, 45 / 155 accessories) served by a real ip transport to a pair-verified reference controller over an encrypted TCP connection',
                                        'value tokens are concretised per format: both booleans, integers at the declared minimum / maximum, floats at bounds and one step, tricky UTF-8 strings (quotes, backslashes, HTML characters, control characters, non-BMP runes), base64 payloads up to several frames',
                                        'numbers are compared numerically (1 and 1.0 are the same float), strings byte for byte'],
-                          rule_text='TLC-generated operation words (local set, remote write, remote read, /accessories read, subscribe, unsubscribe over 3 value tokens) applied to every characteristic of the library through the full stack, and every id list up to the stated length over {readable, readable, write-only, missing}; distinct = abstract word; non-trivial = contains a write followed by a read, or a list with a failing id',
+                          rule_text='TLC-generated operation words (local set, remote write, remote read, /accessories read, subscribe, unsubscribe over 3 value tokens) applied to every characteristic of the library through the full stack, every id list up to the stated length over {readable, readable, write-only, missing} read in one GET, and every list over {writable, writable, read-only, missing} written in one PUT; distinct = abstract word; non-trivial = contains a write followed by a read, or a list with a failing id',
                           nontrivial=lambda b: (b.get('kind') == 'list' and any(k in ('wo', 'ro', 'missing') for k in b['steps'][0].get('ids', []))) or len([s for s in b['steps'] if s.get('a') in ('LocalSet', 'RemoteWrite')]) >= 1,
                           extra_cov=extra, fpfun=fp)
 
